@@ -118,6 +118,7 @@ FIRE = [
     ("qft-inverse-not-reversed", "C20", [(AU, "        qft_gates = [gate for gate in reversed(qft_gates)]\n", "")], "K9.qft"),
     ("qft-swaps-one-short", "C20", [(AU, "    for qubit_index in range(n//2):\n        gate_list += [Gate(\"SWAP\"", "    for qubit_index in range((n - 1)//2):\n        gate_list += [Gate(\"SWAP\"")], "K9.qft"),
     ("qpe-phase-lsb-first", "C20", [(QPEF, "        return sum([0.5**(i+1) for i, b in enumerate(bitstring) if b == \"1\"])", "        return sum([0.5**(i+1) for i, b in enumerate(bitstring[::-1]) if b == \"1\"])")], "K9.phase-readout"),
+    ("rdm-mirrored-element-not-conjugated", "C13", [(VQE, '        for key in self.molecule.fermionic_hamiltonian.terms:\n            # Ignore constant / empty term\n            if not key:\n                continue\n', '        filled_terms = set()\n        for key in self.molecule.fermionic_hamiltonian.terms:\n            # Ignore constant / empty term\n            if not key or key in filled_terms:\n                continue\n', (0, 2)), (VQE, '            elif length == 4:\n                rdm2_spin[iele, lele, jele, kele] += opt_energy2\n\n        # save rdm frequency dictionary\n', '            elif length == 4:\n                rdm2_spin[iele, lele, jele, kele] += opt_energy2\n\n            conj_key = tuple((index, 1 - action) for index, action in reversed(key))\n            if conj_key != key:\n                filled_terms.add(conj_key)\n                if length == 2:\n                    rdm1_spin[jele, iele] += opt_energy2\n                elif length == 4:\n                    rdm2_spin[lele, iele, kele, jele] += opt_energy2\n\n        # save rdm frequency dictionary\n')], "K8.index-placement"),
     # ---- C06
     ("ladder-not-reversed", "C06", [(AU, "    gates += cnot_ladder_gates[::-1]", "    gates += cnot_ladder_gates")], "K9.exp-pauliword"),
     ("negative-angle-offset", "C06", [(AU, "    angle = 2.*coef if coef >= 0. else 4*np.pi+2*coef", "    angle = 2.*coef if coef >= 0. else 2*np.pi+2*coef")], "K9.angle-law"),
@@ -261,6 +262,7 @@ SILENT = [
     ("link-placement-spelling", "C15", [(ONI, "        replacement = self.factor*(leaving-staying) + staying", "        replacement = staying*(1 - self.factor) + leaving*self.factor")]),
     ("qft-phase-spelling", "C20", [(AU, "parameter=prefac*np.pi/2**(n-i))]", "parameter=prefac*2*np.pi/2**(n-i+1))]")]),
     ("qpe-phase-spelling", "C20", [(QPEF, "        return sum([0.5**(i+1) for i, b in enumerate(bitstring) if b == \"1\"])", "        return sum(int(b) / 2**(i+1) for i, b in enumerate(bitstring))")]),
+    ("rdm-mirrored-element-conjugated", "C13", [(VQE, '        for key in self.molecule.fermionic_hamiltonian.terms:\n            # Ignore constant / empty term\n            if not key:\n                continue\n', '        filled_terms = set()\n        for key in self.molecule.fermionic_hamiltonian.terms:\n            # Ignore constant / empty term\n            if not key or key in filled_terms:\n                continue\n', (0, 2)), (VQE, '            elif length == 4:\n                rdm2_spin[iele, lele, jele, kele] += opt_energy2\n\n        # save rdm frequency dictionary\n', '            elif length == 4:\n                rdm2_spin[iele, lele, jele, kele] += opt_energy2\n\n            conj_key = tuple((index, 1 - action) for index, action in reversed(key))\n            if conj_key != key:\n                filled_terms.add(conj_key)\n                if length == 2:\n                    rdm1_spin[jele, iele] += np.conj(opt_energy2)\n                elif length == 4:\n                    rdm2_spin[lele, iele, kele, jele] += np.conj(opt_energy2)\n\n        # save rdm frequency dictionary\n')]),
     ("angle-law-spelling", "C06", [(AU, "    angle = 2.*coef if coef >= 0. else 4*np.pi+2*coef", "    angle = 2.*coef + (0. if coef >= 0. else 4*np.pi)")]),
     ("cirq-branches-reordered", "C01", [(TCIRQ, '        elif gate_name in {"SWAP"}:\n            target_circuit.append(GATE_CIRQ[gate_name](qubit_list[gate.target[0]], qubit_list[gate.target[1]]))\n        elif gate_name in {"CSWAP"}:\n            next_gate = GATE_CIRQ[gate_name].controlled(num_controls)\n            target_circuit.append(next_gate(*control_list, qubit_list[gate.target[0]], qubit_list[gate.target[1]]))\n',
                                          '        elif gate_name in {"CSWAP"}:\n            next_gate = GATE_CIRQ[gate_name].controlled(num_controls)\n            target_circuit.append(next_gate(*control_list, qubit_list[gate.target[0]], qubit_list[gate.target[1]]))\n        elif gate_name in {"SWAP"}:\n            target_circuit.append(GATE_CIRQ[gate_name](qubit_list[gate.target[0]], qubit_list[gate.target[1]]))\n')]),
